@@ -220,9 +220,10 @@ Qed.
 Lemma paired_alt l : paired_pos l = true -> forall k, alt_run k false l = Some false.
 Proof. intros H k. exact (krun_alt_run k l KC KC (proj1 (paired_pos_all l) H k)). Qed.
 
-Lemma tn_normalise l : paired_pos l = true -> nonneg_waits l = true -> tn (normalise l) = tn l.
+Lemma tn_normalise_alt l : (forall k, alt_run k false l = Some false) -> nonneg_waits l = true ->
+  tn (normalise l) = tn l.
 Proof.
-  intros P NN. pose proof (paired_alt l P) as A0.
+  intros A0 NN.
   assert (OK : forall k, alt_run k false l <> None) by (intros k; now rewrite A0).
   destruct (tn_inv l OK NN) as (TM & [D W] & I).
   destruct (alt_inv l) as [ND _]. cbv zeta in ND.
@@ -231,6 +232,9 @@ Proof.
   - intros k. destruct (I k) as [A _]. rewrite A0 in A. injection A as A. unfold is_open in A.
     destruct (depth k (n_open (fold_left nstep l init))); [reflexivity | discriminate].
 Qed.
+
+Lemma tn_normalise l : paired_pos l = true -> nonneg_waits l = true -> tn (normalise l) = tn l.
+Proof. intros P. apply tn_normalise_alt. now apply paired_alt. Qed.
 
 Lemma tnotes_tn k l : tnotes k 0 l = filter (fun p => knote k (snd p)) (tn l).
 Proof.
@@ -284,8 +288,8 @@ Proof. unfold is_note, is_on, is_off, Bars.is_ts, mtype_eqb. now destruct (m_typ
 Lemma wait_not_ts m : is_wait m = true -> negb (Bars.is_ts m) = true.
 Proof. unfold is_wait, Bars.is_ts, mtype_eqb. now destruct (m_type m). Qed.
 
-Lemma bar_init_tn p0 n d r0 : bar_init p0 n d = Ok r0 -> paired_pos p0 = true -> nonneg_waits p0 = true ->
-  tn r0 = tn p0 /\ nonneg_waits r0 = true.
+Lemma bar_init_tn p0 n d r0 : bar_init p0 n d = Ok r0 -> (forall k, alt_run k false p0 = Some false) ->
+  nonneg_waits p0 = true -> tn r0 = tn p0 /\ nonneg_waits r0 = true.
 Proof.
   unfold bar_init, bar_init_full. intros H P NN.
   set (r1 := normalise p0) in *. set (cap := bar_capacity n d) in *.
@@ -293,7 +297,7 @@ Proof.
   set (r2 := if dur_rel r1 <? cap then pad r1 cap false else r1) in *.
   destruct (1 <? lenZ (filter Bars.is_ts r2)); [discriminate|].
   destruct (negb _); [discriminate|]. injection H as <-.
-  assert (H1 : tn r1 = tn p0) by now apply tn_normalise.
+  assert (H1 : tn r1 = tn p0) by now apply tn_normalise_alt.
   assert (N1 : nonneg_waits r1 = true) by apply nonneg_normalise.
   assert (H2 : tn r2 = tn r1 /\ nonneg_waits r2 = true).
   { subst r2. destruct (dur_rel r1 <? cap); [|now split].
@@ -310,15 +314,23 @@ Lemma paired_closed l k : paired_pos l = true -> orun k None l = None.
 Proof. intros P. exact (krun_vel l k KC KC (proj1 (paired_pos_all l) P k)). Qed.
 
 (* the bar's sequence sounds exactly like the piece it was built from, and ends with every key closed *)
-Lemma bar_init_sound p0 n d r0 : bar_init p0 n d = Ok r0 -> paired_pos p0 = true -> nonneg_waits p0 = true ->
+Lemma bar_init_sound_alt p0 n d r0 : bar_init p0 n d = Ok r0 ->
+  (forall k, alt_run k false p0 = Some false) -> (forall k, orun k None p0 = None) -> nonneg_waits p0 = true ->
   (forall k t now, sound k t now None r0 = sound k t now None p0) /\ (forall k, orun k None r0 = None).
 Proof.
-  intros H P NN. destruct (bar_init_tn p0 n d r0 H P NN) as [T N].
+  intros H P C NN. destruct (bar_init_tn p0 n d r0 H P NN) as [T N].
   assert (E : forall k now, tnotes k now p0 = tnotes k now r0).
   { intros k now. apply tnotes_shift. now rewrite !tnotes_tn, T. }
   split.
-  - intros k t now. symmetry. apply sound_by_tnotes; [exact NN|exact N|now apply paired_closed|apply E].
-  - intros k. rewrite (orun_tnotes k 0), <- E, <- (orun_tnotes k 0). now apply paired_closed.
+  - intros k t now. symmetry. apply sound_by_tnotes; [exact NN|exact N|apply C|apply E].
+  - intros k. rewrite (orun_tnotes k 0), <- E, <- (orun_tnotes k 0). apply C.
+Qed.
+
+Lemma bar_init_sound p0 n d r0 : bar_init p0 n d = Ok r0 -> paired_pos p0 = true -> nonneg_waits p0 = true ->
+  (forall k t now, sound k t now None r0 = sound k t now None p0) /\ (forall k, orun k None r0 = None).
+Proof.
+  intros H P NN. apply (bar_init_sound_alt p0 n d r0 H); [now apply paired_alt| |exact NN].
+  intros k. now apply paired_closed.
 Qed.
 
 (* ================================================================ Part 4: one round, then the loop *)
